@@ -168,7 +168,7 @@ func checkC19(c *Ctx) {
 			}
 		})
 	}
-	c.check(pair && len(m.StopCores) >= 1, "R1", "stop units cancel an ancestor of the promotion context", nil, "election context and cancel field come from one context.WithCancel in Start: %v; stop units (call the cancel field under the mutex, C09-R0): %v", pair, fnNames(m.StopUnits))
+	c.check(pair && len(m.StopUnits) >= 2, "R1", "stop units cancel an ancestor of the promotion context", nil, "election context and cancel field come from one context.WithCancel in Start: %v; stop units (they call the cancel field under the mutex: C09-R0): %v", pair, fnNames(m.StopUnits))
 
 	// ---- R2 -----------------------------------------------------------------------
 	if tc != "" {
